@@ -19,13 +19,11 @@ var vNamePool = []string{"buf.build/acme/one", "buf.build/acme/two"}
 // ignorePath is a workspace-relative path chosen by the caller ("" = none).
 func vNondetExternalLintV2(ignorePath string) externalBufYAMLFileLintV2 {
 	var l externalBufYAMLFileLintV2
-	switch verifNondetChoice(3) {
-	case 1:
+	if verifNondetBool() {
 		l.Use = []string{vIDPool[1]}
-		l.DisallowCommentIgnores = verifNondetBool()
-	case 2:
 		l.Except = []string{vIDPool[0]}
-		l.EnumZeroValueSuffix = verifNondetString(1)
+		l.DisallowCommentIgnores = verifNondetBool()
+		l.EnumZeroValueSuffix = verifNondetStringN(1)
 	}
 	if ignorePath != "" {
 		l.Ignore = []string{ignorePath}
@@ -35,8 +33,7 @@ func vNondetExternalLintV2(ignorePath string) externalBufYAMLFileLintV2 {
 
 func vNondetExternalBreaking(ignorePath string) externalBufYAMLFileBreakingV1Beta1V1V2 {
 	var b externalBufYAMLFileBreakingV1Beta1V1V2
-	switch verifNondetChoice(2) {
-	case 1:
+	if verifNondetBool() {
 		b.Use = []string{vIDPool[2]}
 		b.IgnoreUnstablePackages = verifNondetBool()
 	}
@@ -63,7 +60,7 @@ func vNondetIgnoreFor(dir string, n int) string {
 		}
 		return dir
 	case 2:
-		return vUnder(dir, vComp(n))
+		return vUnder(dir, vCompPrintable(n))
 	}
 	return ""
 }
@@ -102,13 +99,13 @@ func vWriteV(f BufYAMLFile) []byte {
 func vNondetFiles(m *externalBufYAMLFileModuleV2, n int) {
 	switch verifNondetChoice(4) {
 	case 1:
-		m.Includes = []string{vUnder(m.Path, vComp(n))}
+		m.Includes = []string{vUnder(m.Path, vCompPrintable(n))}
 	case 2:
-		inc := vUnder(m.Path, vComp(n))
+		inc := vUnder(m.Path, vCompPrintable(n))
 		m.Includes = []string{inc}
-		m.Excludes = []string{inc + "/" + vComp(n)}
+		m.Excludes = []string{inc + "/" + vCompPrintable(n)}
 	case 3:
-		m.Excludes = []string{vUnder(m.Path, vComp(n))}
+		m.Excludes = []string{vUnder(m.Path, vCompPrintable(n))}
 	}
 }
 
@@ -131,24 +128,23 @@ func VerifLemma_C16B_SingleModule() {
 		case 1:
 			m.Path = "."
 		case 2:
-			m.Path = vComp(n)
+			m.Path = vCompPrintable(n)
 			dir = m.Path
 		}
-		if verifNondetBool() {
-			m.Name = vNamePool[1]
-		}
+		m.Name = vNamePool[1]
 		vNondetFiles(&m, n)
 		if verifNondetBool() {
-			// module-specific sections
-			m.Lint = vNondetExternalLintV2(vNondetIgnoreFor(dir, n))
-			m.Breaking = vNondetExternalBreaking(vNondetIgnoreFor(dir, n))
+			// module-specific sections (the same ignore path in both)
+			ign := vNondetIgnoreFor(dir, n)
+			m.Lint = vNondetExternalLintV2(ign)
+			m.Breaking = vNondetExternalBreaking(ign)
 		}
 		ext.Modules = append(ext.Modules, m)
 	}
 	if verifNondetBool() {
 		// workspace-level sections, possibly ignoring the module (or something in it)
 		ext.Lint = vNondetExternalLintV2(vNondetIgnoreFor(dir, n))
-		ext.Breaking = vNondetExternalBreaking("")
+		ext.Breaking = externalBufYAMLFileBreakingV1Beta1V1V2{Use: []string{vIDPool[2]}, IgnoreUnstablePackages: verifNondetBool()}
 	}
 	vRoundTripV2(ext)
 }
@@ -164,7 +160,7 @@ func VerifLemma_C16B_TwoModules() {
 		case 0:
 			m.Path = []string{".", "p"}[i]
 		case 1:
-			m.Path = vComp(n)
+			m.Path = vCompPrintable(n)
 		}
 		m.Name = vNamePool[i]
 		if verifParam("FILES") > 0 {
